@@ -20,6 +20,7 @@ import RtrProofs.CLinkIo
 import RtrProofs.CLinkFsm
 import RtrProofs.CLinkSync
 import RtrProofs.CLinkRecv
+import RtrProofs.CLinkErr
 
 open Rtr Rtr.Gen Rtr.Proto Rtr.P
 
@@ -176,6 +177,13 @@ def step (line : String) : String :=
         | "set_last_update" => reply (sh (C.rtr_set_last_update w s0)) (sh (CLink.setLastUpdateSpec w s0))
         | "cache_response" => reply (sh (C.rtr_handle_cache_response_pdu w mem bytes.length s0 0)) (sh (CLink.cacheResponseSpec w mem bytes.length s0 0))
         | "error_pdu" => reply (sh (C.rtr_handle_error_pdu w mem bytes.length s0 0)) (sh (CLink.errorPduSpec w mem bytes.length s0 0))
+        | "send_pdu" =>
+          -- rtr_send_pdu(socket, the given bytes, their number): return code, socket and the calls made (the converted copy and what is
+          -- handed to tr_send_all are recorded arguments)
+          let sh3 (r : Option (BitVec 32 × (Nat → BitVec 8) × C.XWorld C.S_rtr_socket)) : String :=
+            showOpt (fun x => s!"{x.1.toInt} # {showTrace x.2.2.trace}") r
+          reply (sh3 (C.rtr_send_pdu w mem bytes.length s0 0 (BitVec.ofNat 32 bytes.length)))
+                (sh3 (CLink.Err.sendPduSpec w mem s0 (BitVec.ofNat 32 bytes.length)))
         | "receive_pdu" =>
           -- the buffer: 3248 bytes at address 0 (initial contents: the given bytes, then zeros); timeout 7
           let msz := 3248
